@@ -923,11 +923,231 @@ def oracle_verify_session(case, out):
 
 
 # ---------------------------------------------------------------------------------------------------------------------
+# use, then assign a member in place, then use again -- on the SAME transaction object
+
+UNTOUCHED_MEMBERS = ('type_', 'version')    # assigning these makes the object a different (ill-formed) kind of transaction
+
+
+def settable_members(obj):
+	return [
+		name for name in dir(type(obj))
+		if not name.startswith('_') and name not in UNTOUCHED_MEMBERS
+		and isinstance(getattr(type(obj), name, None), property) and getattr(type(obj), name).fset is not None]
+
+
+def assignable_members(obj, path=(), depth=0):
+	"""[(path, class of value, current value)] of everything that can be assigned in a transaction object (nested structs, first array elements)."""
+	import enum
+	from symbolchain.BaseValue import BaseValue
+	from symbolchain.ByteArray import ByteArray
+	found = []
+	for name in settable_members(obj):
+		try:
+			value = getattr(obj, name)
+		except Exception:  # pylint: disable=broad-except
+			continue
+		here = path + (name,)
+		if value is None or isinstance(value, bool):
+			continue
+		if isinstance(value, enum.Enum):
+			found.append((here, 'enum', value))
+		elif isinstance(value, BaseValue):
+			found.append((here, 'base', value))
+		elif isinstance(value, ByteArray):
+			found.append((here, 'bytearray', value))
+		elif isinstance(value, (bytes, bytearray, memoryview)):
+			found.append((here, 'bytes', bytes(value)))
+		elif isinstance(value, int):
+			found.append((here, 'int', value))
+		elif isinstance(value, list):
+			if value:
+				found.append((here, 'list', value))
+				if depth < 3 and hasattr(value[0], 'serialize'):
+					found += assignable_members(value[0], here + (0,), depth + 1)
+		elif hasattr(value, 'serialize') and depth < 3:
+			found += assignable_members(value, here, depth + 1)
+	return found
+
+
+def make_assignment(rng, path, klass, value):
+	"""A replayable description of one in-place change of the member at `path`."""
+	edit = {'path': list(path)}
+	if klass == 'base':
+		changed = value.value ^ (1 << rng.randrange(8 * value.size - 1))
+		return {**edit, 'op': rng.choice(['base', 'base', 'base-inplace']), 'value': changed}
+	if klass == 'int':
+		return {**edit, 'op': 'int', 'value': value ^ 1}
+	if klass == 'bytearray':
+		return {**edit, 'op': 'bytearray', 'value': flip(value.bytes, rng.randrange(8 * len(value.bytes))).hex()}
+	if klass == 'bytes':
+		choices = [value + bytes([rng.randrange(256)])]
+		if value:
+			choices += [flip(value, rng.randrange(8 * len(value))), value[:-1]]
+		return {**edit, 'op': 'bytes', 'value': rng.choice(choices).hex()}
+	if klass == 'enum':
+		others = [member.name for member in type(value) if member is not value]
+		return {**edit, 'op': 'enum', 'value': rng.choice(others)} if others else None
+	return {**edit, 'op': rng.choice(['pop', 'dup'])}
+
+
+def apply_assignment(transaction, edit):
+	"""Performs the change on the object: through the member's setter, or (pop / dup / base-inplace) inside the member's current value."""
+	target = transaction
+	for step in edit['path'][:-1]:
+		target = target[step] if isinstance(step, int) else getattr(target, step)
+	name = edit['path'][-1]
+	old = getattr(target, name)
+	operation = edit['op']
+	if operation == 'base':
+		setattr(target, name, type(old)(edit['value']))
+	elif operation == 'base-inplace':
+		old.value = edit['value']
+	elif operation == 'int':
+		setattr(target, name, edit['value'])
+	elif operation == 'bytearray':
+		setattr(target, name, type(old)(bytes.fromhex(edit['value'])))
+	elif operation == 'bytes':
+		setattr(target, name, bytes.fromhex(edit['value']))
+	elif operation == 'enum':
+		setattr(target, name, type(old)[edit['value']])
+	elif operation == 'pop':
+		old.pop()
+	else:
+		old.append(old[0])
+
+
+USES_BEFORE = [['sign', 'verify'], ['hash'], ['verify'], ['payload'], ['sign', 'hash', 'verify'], [], ['hash', 'sign']]
+
+
+def gen_mutate_sessions(rng, rounds):
+	"""Per network combination and transaction kind: use the object (hash / payload / sign / verify in several orders), assign ONE member in place
+	(a fee-like top-level number, any other member incl. nested ones, the signature / a list), then verify the old signature, sign again, verify."""
+	cases = []
+	for _ in range(rounds):
+		for net, network in NETWORK_COMBINATIONS:
+			facade = facade_of(net, network)
+			secret = rand_bytes(rng, 32)
+			for tx_kind, data in build_transactions(rng, net, network, secret):
+				members = assignable_members(facade.transaction_factory.deserialize(data))
+				plain = [m for m in members if len(m[0]) == 1 and m[1] == 'base']
+				loose = [m for m in members if m[0][0] in ('signature', 'cosignatures', 'transactions', 'inner_transaction', 'signer_public_key')]
+				picks = [rng.choice(plain)] if plain else []
+				picks.append(rng.choice(members))
+				if loose:
+					picks.append(rng.choice(loose))
+				_, old_signature = reference_sign(net, secret, expected_payload({'net': net, 'network': network, 'tx': data.hex()}))
+				for member_path, klass, value in picks:
+					edit = make_assignment(rng, member_path, klass, value)
+					if edit is None:
+						continue
+					cases.append({
+						'kind': 'mutate-session', 'net': net, 'network': network, 'secret': secret.hex(), 'tx_kind': tx_kind, 'tx': data.hex(),
+						'before': USES_BEFORE[len(cases) % len(USES_BEFORE)], 'edit': edit, 'old_signature': old_signature.hex(),
+						'member': '.'.join(str(step) for step in member_path)})
+	return cases
+
+
+def impl_mutate_session(case):
+	from symbolchain.CryptoTypes import PrivateKey, Signature
+	net = case['net']
+	facade = facade_of(net, case['network'])
+	try:
+		transaction = facade.transaction_factory.deserialize(bytes.fromhex(case['tx']))
+		key_pair = facade.KeyPair(PrivateKey(bytes.fromhex(case['secret'])))
+		old_signature = Signature(bytes.fromhex(case['old_signature']))
+		used = {}
+		for use in case['before']:
+			if use == 'sign':
+				used['signature'] = facade.sign_transaction(key_pair, transaction).bytes.hex()
+			elif use == 'verify':
+				used['verifies'] = outcome(lambda: facade.verify_transaction(transaction, old_signature))
+			elif use == 'hash':
+				used['hash'] = facade.hash_transaction(transaction).bytes.hex()
+			else:
+				used['payload'] = bytes(facade.extract_signing_payload(transaction)).hex()
+		before = bytes(transaction.serialize())
+		try:
+			apply_assignment(transaction, case['edit'])
+			after = bytes(transaction.serialize())
+		except Exception as ex:  # pylint: disable=broad-except
+			return {'error': f'unparsable:{type(ex).__name__}'}
+		old_verifies = outcome(lambda: facade.verify_transaction(transaction, old_signature))
+		payload = bytes(facade.extract_signing_payload(transaction))
+		signature = facade.sign_transaction(key_pair, transaction)
+		new_verifies = outcome(lambda: facade.verify_transaction(transaction, signature))
+		return {
+			'used': used, 'before': before.hex(), 'after': after.hex(), 'payload': payload.hex(), 'old_verifies': old_verifies,
+			'signature': signature.bytes.hex(), 'new_verifies': new_verifies, 'still': bytes(transaction.serialize()).hex() == after.hex()}
+	except Exception as ex:  # pylint: disable=broad-except
+		return {'error': f'crash:{type(ex).__name__}'}
+
+
+def model_mutate_sessions(cases, outs):
+	"""The model cannot assign members of Python objects: it is given the bytes the object serializes to after the assignment."""
+	live = [(case, out) for case, out in zip(cases, outs) if 'error' not in out]
+	payloads = edmodel.query([
+		f'payload sym {seed_of(case).hex()} {out["after"]}' if case['net'] == 'sym' else f'payload nem {out["after"]}' for case, out in live])
+	payloads = [answer[3:] if answer.startswith('ok:') else answer for answer in payloads]
+	signatures = edmodel.query([
+		f'sign {case["net"]} {case["secret"]} {payload or "-"}' if ':' not in payload else 'hash sha256 -' for (case, _), payload in zip(live, payloads)])
+	requests = []
+	for (case, out), payload, signature in zip(live, payloads, signatures):
+		_, key_at = signature_offsets(case['net'])
+		public = out['after'][2 * key_at:2 * key_at + 64]
+		for value in (case['old_signature'], signature):
+			requests.append(f'verify {case["net"]} {public} {payload or "-"} {value}' if ':' not in payload and len(public) == 64 else 'hash sha256 -')
+	verdicts = edmodel.query(requests)
+	answers = iter(
+		{'payload': payload, 'old_verifies': verdicts[2 * index], 'signature': signature, 'new_verifies': verdicts[2 * index + 1]}
+		for index, (payload, signature) in enumerate(zip(payloads, signatures)))
+	return [next(answers) if 'error' not in out else out for out in outs]
+
+
+def oracle_mutate_session(case, out):
+	# pylint: disable=too-many-return-statements,too-many-branches
+	if 'error' in out:
+		return None if out['error'].startswith('unparsable') else f'a use / assign / use sequence raised {out["error"]}'
+	net, secret = case['net'], bytes.fromhex(case['secret'])
+	context = {'net': net, 'network': case['network']}
+	if out['before'] != case['tx'] or not out['still']:
+		return None    # the object does not reproduce its bytes: a codec matter (C01/C02)
+	what = f'after {"+".join(case["before"]) or "no use"} and then assigning {case["member"]} ({case["edit"]["op"]}) on the same {case["tx_kind"]} object'
+	payload_before = expected_payload({**context, 'tx': out['before']})
+	payload_after = expected_payload({**context, 'tx': out['after']})
+	_, key_at = signature_offsets(net)
+	key_changed = out['before'][2 * key_at:2 * key_at + 64] != out['after'][2 * key_at:2 * key_at + 64]
+	covered = payload_before != payload_after
+	used = out['used']
+	if used.get('signature', case['old_signature']) != case['old_signature'] or used.get('verifies', 'T') != 'T' \
+		or used.get('payload', payload_before.hex()) != payload_before.hex():
+		return f'before any assignment the {case["tx_kind"]} object is not signed / verified with the documented payload: {used}'
+	problems = []
+	if out['payload'] != payload_after.hex():
+		stale = ' (it is the payload of the transaction as it was BEFORE the assignment)' if out['payload'] == payload_before.hex() and covered else ''
+		problems.append(f'the signing payload is not the documented payload of the transaction as it is now{stale}')
+	if covered or key_changed:
+		if out['old_verifies'] not in ('F', 'reject'):
+			problems.append(f'covered data changed but the old signature still verifies ({out["old_verifies"]})')
+	elif out['old_verifies'] != 'T':
+		problems.append(f'only data outside the signed window changed but the old signature no longer verifies ({out["old_verifies"]})')
+	public, expected = reference_sign(net, secret, payload_after)
+	if out['signature'] != expected.hex():
+		problems.append(f'signing again does not give the deterministic reference signature of the current payload: {out["signature"]} vs {expected.hex()}')
+	elif not key_changed:
+		if out['new_verifies'] != 'T':
+			problems.append(f'the new signature does not verify ({out["new_verifies"]})')
+		if not reference_verify(net, public, payload_after, bytes.fromhex(out['signature'])):
+			problems.append('the new signature does not verify under the reference verifier')
+	return f'{what}: ' + '; '.join(problems) if problems else None
+
+
+# ---------------------------------------------------------------------------------------------------------------------
 
 EXTRA_KINDS = {    # kind -> (implementation, oracle)
 	'zerokey': (impl_zero_key, oracle_zero_key),
 	'sign-session': (impl_sign_session, oracle_sign_session),
-	'verify-session': (impl_verify_session, oracle_verify_session)}
+	'verify-session': (impl_verify_session, oracle_verify_session),
+	'mutate-session': (impl_mutate_session, oracle_mutate_session)}
 
 
 def run_entry_points_and_sessions(check, signed, with_model):
@@ -937,18 +1157,29 @@ def run_entry_points_and_sessions(check, signed, with_model):
 	groups = [
 		('zerokey', gen_zero_key_cases(rng, 1 if quick else 12), model_zero_key, 'EdZ-verify-model-vs-zero-key-entry-points'),
 		('sign-session', gen_sign_sessions(rng, 14 if quick else 300), model_sign_sessions, 'EdZ+Payload-model-vs-signing-session'),
-		('verify-session', gen_verify_sessions(rng, signed, 12 if quick else 400), model_verify_sessions, 'EdZ-verify-model-vs-Verifier-session')]
+		('verify-session', gen_verify_sessions(rng, signed, 12 if quick else 400), model_verify_sessions, 'EdZ-verify-model-vs-Verifier-session'),
+		('mutate-session', gen_mutate_sessions(rng, 1 if quick else 12), model_mutate_sessions, 'EdZ+Payload-model-vs-facade-after-in-place-assignment')]
 	for kind, cases, model_function, correspondence in groups:
 		implementation, oracle = EXTRA_KINDS[kind]
 		outs = [implementation(case) for case in cases]
-		models = model_function(cases) if with_model else [None] * len(cases)
+		if not with_model:
+			models = [None] * len(cases)
+		elif kind == 'mutate-session':
+			models = model_function(cases, outs)
+		else:
+			models = model_function(cases)
 		for case, out, model in zip(cases, outs, models):
 			if kind == 'zerokey':
 				label = f'zerokey:{case["net"]}:{case["entry"]}:{out}'
 			elif kind == 'sign-session':
 				label = f'sign-session:{case["net"]}:{case["via"]}:{len(case["items"])}'
-			else:
+			elif kind == 'verify-session':
 				label = f'verify-session:{case["net"]}:{case["keytype"]}:{len(case["steps"])}'
+			else:
+				label = f'mutate-session:{case["net"]}:{case["edit"]["op"]}:' + (out['error'] if 'error' in out else f'old-signature-{out["old_verifies"]}')
+				if with_model and 'error' not in out:
+					out = {**out, **{name: out[name] for name in model}}
+					model = {**out, **model}
 			check.case(label, repr(sorted(case.items())))
 			if with_model and out != model and not (isinstance(out, str) and out.startswith('unparsable')):
 				check.disagree(correspondence, case, out, model)
@@ -972,7 +1203,7 @@ def shorten(case):
 
 
 def signature_of(case):
-	detail = '/'.join(str(case[name]) for name in ('entry', 'via', 'what', 'tx_kind') if name in case)
+	detail = '/'.join(str(case[name]) for name in ('entry', 'via', 'what', 'tx_kind', 'member') if name in case)
 	return f'{case["kind"]}:{case.get("net", "sym")}:{detail}:' \
 		+ hashlib.sha256(repr(sorted(case.items())).encode('utf8')).hexdigest()[:12]
 
@@ -1003,7 +1234,10 @@ def run(check, unrecognised):
 		'bytes) and deserialized zero-signer transactions (signature passed or taken from the transaction) and a parsed cosignature, each with R||0 ' \
 		'for the 8 small-order R (incl. the all-zero signature) and an honest signer\'s signature, on both networks of both chains; signing sessions ' \
 		'(ONE KeyPair / facade account object signs 3-5 payloads, transactions or cosigned hashes, the first one again later, every signature ' \
-		'against the reference); verifier sessions (ONE Verifier object, valid and perturbed pairs interleaved). ' \
+		'against the reference); verifier sessions (ONE Verifier object, valid and perturbed pairs interleaved); use / assign / use sessions on ONE ' \
+		'transaction object (hash, payload, sign, verify in several orders, then one member assigned in place -- top-level number, any nested member, ' \
+		'signature, signer, list pop/append, BaseValue.value -- then verify(old signature) must fail iff the documented payload or the signer ' \
+		'changed, and signing again must give the reference signature of the current payload), all transaction kinds, both chains and networks. ' \
 		'distinct = distinct (kind, arguments)'
 	for module in ('KeyPairOps', 'PayloadOps'):
 		for anchor in unrecognised.get(module, []):
